@@ -50,6 +50,8 @@ pub struct Peer {
     /// QoS>0 publishes received from the endpoint
     pub qos_pubs_rx: u32,
     pub max_window: u32,
+    /// QoS1/2 publishes this peer has sent
+    pub qos_pubs_sent: u32,
     /// index of script step -> gate entered? maintained by the driver
     pub last_deviation: Option<String>,
 }
@@ -81,6 +83,7 @@ impl Peer {
             final_acks_sent: 0,
             qos_pubs_rx: 0,
             max_window: 0,
+            qos_pubs_sent: 0,
             last_deviation: None,
         }
     }
@@ -121,6 +124,16 @@ impl Peer {
         pkts
     }
 
+    /// QoS1/2 publishes this peer has sent that the endpoint has not finally acknowledged yet
+    pub fn peer_window(&self) -> u32 {
+        let finals = self.count_rx(|p| match p {
+            Pkt::PubAck(_) | Pkt::PubComp(_) => true,
+            Pkt::PubRec(a) => a.code >= 0x80,
+            _ => false,
+        }) as u32;
+        self.qos_pubs_sent.saturating_sub(finals)
+    }
+
     pub fn count_rx<F: Fn(&Pkt) -> bool>(&self, f: F) -> usize {
         self.rx.iter().filter(|(_, p)| f(p)).count()
     }
@@ -142,6 +155,7 @@ impl Peer {
                 }) >= *n as usize
             }
             Pre::HandlerEntered(i) => entered(*i),
+            Pre::WindowBelow(n) => self.peer_window() < u32::from(*n),
         }
     }
 
